@@ -160,6 +160,10 @@ def check(prop_id, tier, seed, replay=None):
             for l in T.promo_lines(h) + T.chain_lines(h):
                 inst_of[l.split(" ")[1]] = (h, {})
                 lines.append(l)
+        if "snapj" in plan["slices"] or "conn" in plan["slices"]:
+            for l in T.world_lines(h):
+                inst_of[l.split(" ")[1]] = (h, {})
+                lines.append(l)
         if "snapj" in plan["slices"]:
             for l in T.snap_lines(h):
                 inst_of[l.split(" ")[1]] = (h, {})
